@@ -957,6 +957,12 @@ func (g *Gen) genBridgeReceive() *eng.Tx {
 	if bmd == "" {
 		bmd = "bm"
 	}
+	if g.chance(0.15) {
+		// multi-byte characters around the limit: at most 256 characters but more than 256 bytes (the
+		// batch is created by the keeper directly, this message's own validation is the only guard)
+		bmd = strings.Repeat("é", 129+g.R.Intn(128))
+		md = "pm"
+	}
 	amt := g.issueAmount()
 	return tx(&basetypes.MsgBridgeReceive{Issuer: issuer, ClassId: c.Id,
 		Project:  &basetypes.MsgBridgeReceive_Project{ReferenceId: ref, Jurisdiction: g.jurisdiction(), Metadata: md},
